@@ -27,6 +27,15 @@ loadstate_t iobuffer::load_buffer(FILE *fin, bool ispadding)
 {
   u32_t load = fread(b, 1, sum, fin);
   bool readover = feof(fin);
+  if ((!ispadding) && (load == sum) && (!readover))
+  {
+    // a full read does not set the EOF flag even when the file ends exactly here: look one byte ahead
+    int next = fgetc(fin);
+    if (next == EOF)
+      readover = true;
+    else
+      ungetc(next, fin);
+  }
   WV_POINT(WVP_IO_LOAD_READ, this);
   tail = load & 0xf;
   total = load >> 4;
